@@ -858,6 +858,10 @@ def variational_gamma(
             "The `eps` parameter has been disambiguated and is no longer used "
             "for the variational gamma algorithm; use `min_branch_length` instead"
         )
+    if not max_shape > 1.0:
+        # A cap of exactly one scales both natural parameters of every posterior to
+        # zero, leaving improper (infinite mean) distributions for all nodes
+        raise ValueError("Maximum shape parameter must be greater than 1")
     if tree_sequence.num_mutations == 0:
         raise ValueError(
             "No mutations present: these are required for the variational_gamma method"
